@@ -46,6 +46,7 @@ let event_of (tok : string) : event option =
   | ["x"; i] -> Some (EvPadt (nat_of_int (int_of_string i)))
   | ["d"; i] -> Some (EvDead (nat_of_int (int_of_string i)))
   | ["v"; "ok"] -> Some EvSbOk
+  | ["v"; "fail"] -> Some EvSbFail
   | _ -> None
 let show_out (o : out) : string option =
   let n = int_of_nat in
@@ -281,7 +282,10 @@ let () =
      only pppoe-reneg-keeps-dataplane / only pppoe-aaa-answer-after-teardown still open *)
   let variant = if Array.length Sys.argv > 3 then Sys.argv.(3) else "repaired" in
   let rep = variant <> "defective" in
-  let td = (variant = "repaired" || variant = "heldanswer") and hl = (variant = "repaired" || variant = "noteardown") in
+  (* sbfailtwice = /repo HEAD today: known finding pppoe-vpp-failure-after-teardown open, everything else fixed *)
+  let td = (variant = "repaired" || variant = "heldanswer" || variant = "sbfailtwice")
+  and hl = (variant = "repaired" || variant = "noteardown" || variant = "sbfailtwice")
+  and sf = (variant <> "sbfailtwice") in
   List.iteri (fun idx line ->
     let il = if idx < Array.length impl then impl.(idx) else "" in
     match tokens line with
@@ -289,7 +293,7 @@ let () =
     | "pppoe" :: rest ->
       let flav = flavour_of il in
       if flav <> "cur" && flav <> "rfc" then print_endline ("badflavour:" ^ flav) else
-      print_endline (try run_pppoe rep { vrep = true; vrfc = (flav = "rfc"); vtd = td; vhl = hl } flav rest with e -> "modelerr:" ^ Printexc.to_string e)
+      print_endline (try run_pppoe rep { vrep = true; vrfc = (flav = "rfc"); vtd = td; vhl = hl; vsf = sf } flav rest with e -> "modelerr:" ^ Printexc.to_string e)
     | ["radius"; fb; srv; at] ->
       let fb = (fb = "1") in
       let srv = (match srv with "accept" -> SrvAccept | "reject" -> SrvReject | "other" -> SrvOtherCode | _ -> SrvNoAnswer) in
